@@ -147,16 +147,19 @@ def run(ctx):
 def replay(ctx, data):
     import ty_print as TP
 
-    for c in data["replay"]["cases"][:10]:
+    cases = data["replay"]["cases"][:10]
+    obs = []
+    for i, c in enumerate(cases):
         kind = "names" if "clashes" in c else "type"
-        case = {"id": 0, "kind": kind, "t": c["type"]}
+        case = {"id": i, "kind": kind, "t": c["type"]}
         if kind == "type":
             case["ref"] = TP.tokenize(c["reference"])
-        o = TP.observe_case(case)
-        rep = validate(ctx, [o], "r")[0]
+        obs.append(TP.observe_case(case))
+    reps = validate(ctx, obs, "r")
+    for i, c in enumerate(cases):
         print("type   :", json.dumps(c["type"]))
-        print("  code : str ->", repr(o["text"]), "read back ->", json.dumps(o.get("back")))
-        print("  spec :", json.dumps(rep)[:500])
+        print("  code : str ->", repr(obs[i]["text"]), "read back ->", json.dumps(obs[i].get("back")))
+        print("  spec :", json.dumps(reps[i])[:500])
 
 
 def selftest(ctx):
